@@ -10,7 +10,7 @@
 //	    through the planner's own expression parser (ParserPlanner.parseRe: the stripped expression it sends and
 //	    the label names it pairs with the groups, the same values the planner model takes as its oracle and the
 //	    text correspondence ties to the SQL); the reference is Go's regexp: group i = i-th opening parenthesis
-//	    (SubexpNames), values = the groups of the LAST match (x[length(x)] over extractAllGroupsHorizontal).
+//	    (SubexpNames), values = the groups of the FIRST match (x[1] over extractAllGroupsHorizontal).
 //	logqlsem --mode enrich --seed S --cases withsql.jsonl --out enriched.jsonl
 //	    for every case: the implementation's SQL parsed back into the object tree of coq/model/Sql.v
 //	    (harness/sqlparse, validated on the model side by render(tree) = text), small databases built
@@ -813,7 +813,7 @@ func genDB(r *rand.Rand, qi *qinfo, c Ctx) DB {
 			}
 		}
 		if len(rl) > 0 {
-			two := rl[r.Intn(len(rl))] + " " + rl[r.Intn(len(rl))] // two matches in one line: the LAST one is extracted
+			two := rl[r.Intn(len(rl))] + " " + rl[r.Intn(len(rl))] // two matches in one line: the FIRST one is extracted
 			for _, l := range rl {
 				lines = append(lines, l, l)
 			}
@@ -916,8 +916,8 @@ func jgTable(qi *qinfo, dbs []DB) string {
 	return y.List(res)
 }
 
-// the capture groups of the LAST match of the expression in the line (” for a group that took no part / no match):
-// arrayMap(x -> x[length(x)], extractAllGroupsHorizontal(line, pattern)). Rows exist only for an expression that RE2
+// the capture groups of the FIRST match of the expression in the line (empty for a group that took no part / no match):
+// arrayMap(x -> x[1], extractAllGroupsHorizontal(line, pattern)). Rows exist only for an expression that RE2
 // accepts and that has a capture group (otherwise ClickHouse raises an exception).
 func rgPatterns(qi *qinfo) []string {
 	seen := map[string]bool{}
@@ -1275,11 +1275,11 @@ func genRe(r *rand.Rand, depth int, names *[]string, nested *bool, insideNamed b
 	return res
 }
 
+// the capture groups of the FIRST match (x[1] over extractAllGroupsHorizontal since the repair regexp-last-match; it was the last)
 func lastGroups(re *regexp.Regexp, line string) []string {
-	all := re.FindAllStringSubmatch(line, -1)
 	vals := make([]string, re.NumSubexp())
-	if len(all) > 0 {
-		copy(vals, all[len(all)-1][1:])
+	if m := re.FindStringSubmatch(line); m != nil {
+		copy(vals, m[1:])
 	}
 	return vals
 }
